@@ -246,3 +246,34 @@ def c18_agent(stream, res, impl):
                 if sorted(set(dropped)) != sorted(set(invalid)):
                     return "non-strict round un-trusted %s, the pool declared %s invalid" % (sorted(set(dropped)), sorted(set(invalid)))
     return None
+
+
+def c14_rpc(stream, res, impl):
+    """every call returns the reply sent for its own id; storms return every caller's own token"""
+    if stream["component"] != "rpc":
+        return None
+    tok_id, sent = {}, {}
+    for op, out in zip(res, impl):
+        t = op.split()
+        if len(t) < 2:
+            continue
+        if t[1] == "call" and out.startswith("ok id="):
+            tok_id[t[2]] = int(out.split("=")[1])
+            kv = _kv(op)
+            if "early" in kv:
+                sent[tok_id[t[2]]] = ("result", kv["early"])
+        elif t[1] == "reply" and out == "ok":
+            sent[int(t[2])] = (t[3], t[4] if len(t) > 4 else "")
+        elif t[1] == "await" and out.startswith("returned "):
+            i = tok_id.get(t[2])
+            got = out.split(" ", 1)[1]
+            if i is None or sent.get(i, (None, None)) != ("result", got):
+                return "call %s (id %s) returned %r but the reply sent for its id was %r" % (t[2], i, got, sent.get(i))
+        elif t[1] == "request" and "wrong-service-in-context" in out:
+            return "a handler obtained a service from its context that is not the connection the request arrived on"
+        elif t[1] == "storm":
+            kv, okv = _kv(op), _kv(out)
+            n = 2 * int(kv["callers"])
+            if okv.get("returned") != str(n) or okv.get("own") != str(n):
+                return "storm of %s concurrent callers per side (limit %s/%s): %s" % (kv["callers"], kv["limit"], kv["discard"], out)
+    return None
